@@ -1,0 +1,8 @@
+//go:build verif
+
+package embed
+
+// VerifLazyAtoms: rxLazyImageSrc, rxLazyImageSrcset and imageSrcIsValid on one value.
+func VerifLazyAtoms(v string) (bool, bool, bool) {
+	return rxLazyImageSrc.MatchString(v), rxLazyImageSrcset.MatchString(v), (&ImageExtractor{}).imageSrcIsValid(v)
+}
